@@ -4,6 +4,7 @@ import gc
 import hashlib
 import json
 import re
+import signal
 from dataclasses import dataclass, field
 from typing import Any
 
@@ -52,6 +53,36 @@ def digest(x: Any) -> str:
     return hashlib.sha1(
         json.dumps(x, sort_keys=True, default=repr).encode(), usedforsecurity=False
     ).hexdigest()[:16]
+
+
+EXEC_DEADLINE_S = 45
+
+
+class ExecutionTimeout(BaseException):
+    pass
+
+
+class _deadline:
+    """wall-clock guard around one execution (real time: the virtual clock does not apply)"""
+
+    def __init__(self, seconds: int) -> None:
+        self.seconds = seconds
+
+    def _fire(self, signum, frame):
+        raise ExecutionTimeout()
+
+    def __enter__(self):
+        self.old = signal.signal(signal.SIGALRM, self._fire)
+        self.remaining = signal.alarm(0)
+        signal.setitimer(signal.ITIMER_REAL, self.seconds)
+        return self
+
+    def __exit__(self, *a):
+        signal.setitimer(signal.ITIMER_REAL, 0)
+        signal.signal(signal.SIGALRM, self.old)
+        if self.remaining:
+            signal.alarm(self.remaining)
+        return False
 
 
 class Stats:
@@ -118,7 +149,32 @@ def explore(  # noqa: PLR0913, PLR0912, C901
     while stack:
         prefix = stack.pop()
         ch = Chooser(prefix)
-        res = harness.execute(program, ch)
+        try:
+            with _deadline(EXEC_DEADLINE_S):
+                res = harness.execute(program, ch)
+        except ExecutionTimeout:
+            # a single execution normally takes milliseconds: the library (or the explored
+            # choice tree) does not terminate.  Reported as a violation with the choices made
+            # so far; the rest of this program's tree is abandoned.
+            stats.executions += 1
+            stats.violation_count += 1
+            stats.capped_programs += 1
+            w = {
+                "program": program,
+                "program_index": program_index,
+                "choices": list(ch.choices),
+                "deviations": ch.deviations,
+                **viol(
+                    "termination",
+                    "execution-does-not-terminate",
+                    f"one execution finishes within {EXEC_DEADLINE_S}s of wall-clock time",
+                    f"still running after {len(ch.choices)} choice points",
+                ),
+            }
+            best = stats.violations.get(w["signature"])
+            if best is None or _rank(w) < _rank(best):
+                stats.violations[w["signature"]] = w
+            break
         runs += 1
         if runs % 256 == 0:
             gc.collect()  # fixed collection points (the worker disables automatic GC)
